@@ -83,8 +83,6 @@ class ReflectMixin:
     def eq_values(self, st, a, b):
         if isinstance(a, PTok) and isinstance(b, PTok) and a.what == b.what == "hints" and z3.is_expr(a.a) and z3.is_expr(b.a):
             return a.a == b.a                      # the resolved annotations of the same class
-        if isinstance(a, PTok) or isinstance(b, PTok):
-            return F
         return super().eq_values(st, a, b)
 
     # ------------------------------------------------------ the global registry --
